@@ -9,9 +9,10 @@ F = {
     "F16": "F16-generic-div-f-integer",
     "F17": "F17-timestamp-literal-text-compare",
     "F30": "F30-mul-right-operand-same-level",
-    "F31": "F31-regex-op-undocumented",
-    "F32": "F32-equality-under-comparison",
-    "F34": "F34-regexp-strength",
+    "N1": "C02-N1-regex-op-undocumented",
+    "N2": "C02-N2-equality-under-comparison",
+    "N3": "C02-N3-regexp-strength",
+    "N4": "C02-N4-bigquery-degrees-hole",
 }
 
 CMP4 = {"op:<", "op:>", "op:<=", "op:>="}
@@ -28,9 +29,9 @@ def triple_class(tr):
     if c in DISHONEST:
         return F["F5"]
     if c == "tmpl:regex_search":
-        return F["F34"]
+        return F["N3"]
     if p in CMP4 and c in EQ2:
-        return F["F32"]
+        return F["N2"]
     if site == 1 and ((p in CMP4 and c in CMP4) or (p in EQ2 and c in EQ2)):
         return F["F4"]
     if p == "op:*" and site == 1 and c in ("tmpl:mod", "tmpl:div_f"):
